@@ -9,6 +9,7 @@ import (
 	"flag"
 	"fmt"
 	"os"
+	"strings"
 	"sync"
 
 	"verif/cmd/c12x/bodies"
@@ -24,6 +25,7 @@ func main() {
 	repo := fs.String("repo", "/repo", "naga tree")
 	extra := fs.String("extra", "/verif/testdata/c12", "extra driver programs")
 	reps := fs.Int("reps", 20, "repetitions per scenario (race)")
+	only := fs.String("only", "", "substring filter on scenario names (race)")
 	fs.Parse(os.Args[2:])
 	switch os.Args[1] {
 	case "digests":
@@ -61,6 +63,9 @@ func main() {
 		}
 		r := res{Missing: missing}
 		for _, s := range ss {
+			if *only != "" && !strings.Contains(s.Name(), *only) {
+				continue
+			}
 			r.Scenarios++
 			n := len(s.Labels())
 			// Solo outputs.
